@@ -26,12 +26,7 @@ package index
 //@ func index.(*Options).FindAllShards
 //@   trusted
 //@   assigns nothing
-//@ func index.(*Options).GetHash
-//@   trusted
-//@   assigns nothing
-//@ func index.(*Options).HashOptions
-//@   trusted
-//@   assigns nothing
+// (GetHash / HashOptions: frames and reads contracts are in zz_verif_contracts_c38.go)
 
 //@ func index.BranchNamesEqual
 //@   loop 1:
